@@ -42,6 +42,55 @@ theorem run_done_stack (fuel : Nat) (s : St V) (h : (run g fuel s).2 = true) : (
       rw [hs] at h
       exact ih s' h
 
+theorem iter_done (k : Nat) (s : St V) (h : step g s = none) : iter g k s = s := by
+  induction k with
+  | zero => rfl
+  | succ n ih => simp only [iter, stepOrStay, h]; exact ih
+
+/-- `run` is `iter` with a completion flag -/
+theorem run_eq_iter (k : Nat) (s : St V) : (run g k s).1 = iter g k s := by
+  induction k generalizing s with
+  | zero => rfl
+  | succ n ih =>
+    simp only [run, iter, stepOrStay]
+    cases hs : step g s with
+    | none => simp only []; exact (iter_done g n s hs).symm
+    | some s' => exact ih s'
+
+/-- interleaved traversals do not influence each other: whatever the schedule, traversal `i` is where it
+    would be after making its own visits alone -/
+theorem multiRun_component (sched : List Nat) (f : Nat → St V) (i : Nat) :
+    multiRun g sched f i = iter g (sched.count i) (f i) := by
+  induction sched generalizing f with
+  | nil => rfl
+  | cons j rest ih =>
+    simp only [multiRun]
+    rw [ih]
+    by_cases hji : j = i
+    · subst hji
+      simp [iter]
+    · have : ¬ i = j := fun e => hji e.symm
+      simp [this, hji, List.count_cons]
+
+theorem iter_add (a b : Nat) (s : St V) : iter g (a + b) s = iter g b (iter g a s) := by
+  induction a generalizing s with
+  | zero => simp [iter]
+  | succ n ih =>
+    have : n + 1 + b = (n + b) + 1 := by omega
+    rw [this]
+    simp only [iter]
+    exact ih _
+
+/-- once a walk has finished, more scheduler turns change nothing -/
+theorem iter_after_done (fuel k : Nat) (s : St V) (hdone : (run g fuel s).2 = true) (hk : fuel ≤ k) :
+    iter g k s = (run g fuel s).1 := by
+  have hstack := run_done_stack g fuel s hdone
+  have hnone : step g (run g fuel s).1 = none := by
+    unfold step; rw [hstack]
+  obtain ⟨d, rfl⟩ : ∃ d, k = fuel + d := ⟨k - fuel, by omega⟩
+  rw [iter_add, ← run_eq_iter g fuel s]
+  exact iter_done g d _ hnone
+
 /-- a potential for graphs in which no directory has a literal directory as a child: every visit costs 1 -/
 theorem litCost_one_zero (kids : List (String × Nat))
     (h : ∀ name c, (name, c) ∈ kids → ¬ ((g c).kind = .dir ∧ (g c).verifier = none)) :
